@@ -714,3 +714,8 @@ for _p in ("C04", "C11"):
     PROPS[_p]["proofs"] = PROPS[_p]["proofs"] + ["Bmc.Proofs.EndToEnd.WholeC04"]
     PROPS[_p]["claim"] += (" WHOLE (Proofs/EndToEnd/WholeC04.lean): generated_session_then_history_results — with the session newV2Session AS TRANSLATED returns against the specification's BMC, over ANY history every returned "
                            "completion code is justified by a reply authenticated under the K1 THAT BMC derived for itself, addressed to the console's session ID, for that call's command.")
+for _p in ("C10", "C17", "C09"):
+    PROPS[_p]["proofs"] = PROPS[_p]["proofs"] + ["Bmc.Proofs.EndToEnd.SessionlessHistory"]
+    PROPS[_p]["claim"] += (" SESSION-LESS HISTORY about the translated code (Proofs/EndToEnd/SessionlessHistory.lean): generated_sessionless_history — command after command on one session-less connection value threaded by "
+                           "SendCommand AS TRANSLATED, each call sends and returns the documented contract OF THAT CALL ALONE (slExpected-many copies of that command's one serialisation), whatever the earlier calls were or left behind "
+                           "and whatever value the connection started from (_ignores_connection); every datagram has null session ID and sequence number (_null).")
